@@ -1,6 +1,6 @@
 SPECIFICATION Spec
 CONSTANTS
-  Quirks = {"DashOnlyInCap", "CommentEndsBlock", "NumAlwaysMerged", "DoubleHideCrash"}
+  Quirks = {"CommentEndsBlock"}
   Tier = "quick"
 INVARIANT AsDocumented
 CHECK_DEADLOCK FALSE
